@@ -291,6 +291,29 @@ func (c *Ctx) runLoop(fr *frame, l *loopInfo) {
 	if fr.fc != nil {
 		lc = fr.fc.Loops[l.ord]
 	}
+	if c.bmc > 0 {
+		// bounded search for a replayable counterexample: no loop is cut,
+		// every loop is unrolled c.bmc times from the real entry state and
+		// longer executions are dropped (this mode only ever yields models,
+		// never proofs)
+		cur := entry
+		for iter := 0; iter < c.bmc; iter++ {
+			fr.pending[l.header] = []edgeState{{from: nil, st: cur}}
+			c.runNodesLoop(fr, l)
+			back := fr.pending[l.header]
+			delete(fr.pending, l.header)
+			nxt := c.enterBlock(fr, l.header, back)
+			if nxt == nil {
+				return
+			}
+			cur = nxt
+		}
+		// one more header evaluation so that exits after the last iteration are kept
+		fr.pending[l.header] = []edgeState{{from: nil, st: cur}}
+		c.runNodesLoop(fr, l)
+		delete(fr.pending, l.header)
+		return
+	}
 	if lc == nil {
 		// try to unroll; fall back to the trivial invariant (havoc) if the
 		// trip count is not constant
